@@ -234,6 +234,11 @@ func ParseContractFile(path string) (*ContractFile, error) {
 			}
 			d.Kind, d.CallText, d.Expr = "beforecall", normCallText(m[1]), m[3]
 			d.CallOrd, _ = strconv.Atoi(m[2])
+		case strings.HasPrefix(text, "havoc call "):
+			// the named callee is treated as unknown code here (its syntactic write set is
+			// forgotten, its result is unknown): neither inlined nor used by contract, so
+			// its preconditions are not obligations of this function
+			d.Kind, d.CallText = "havoccall", normCallText(strings.TrimSpace(strings.TrimPrefix(text, "havoc call ")))
 		case strings.HasPrefix(text, "before return"):
 			m := reBefRet.FindStringSubmatch(text)
 			if m == nil {
